@@ -90,12 +90,17 @@ func DrawConfig(r *rng.R) *Config {
 	c.PScope = on(0.5, 0.4)
 	c.NSwitches = r.Range(1, 3)
 	c.Budget = 120
-	if r.P(0.03) {
-		// scale mode: scripts that split into many (>= 64, >= 100) chunks
+	if r.P(0.02) {
+		// scale mode: scripts that split into many (>= 64, >= 100) chunks, files with more
+		// than 64 hoisted texts / format() calls
 		c.MaxItems = r.Range(2, 6)
 		c.MaxDepth = r.Range(3, 4)
 		c.MaxStmts = r.Range(6, 14)
-		c.Budget = r.Range(150, 400)
+		c.Budget = r.Range(150, 700)
+		if r.Bool() {
+			c.PText = 0.6 + r.Float()*0.3
+			c.PFormat = 0.5 + r.Float()*0.45
+		}
 	}
 	return c
 }
